@@ -94,6 +94,9 @@ class Vec:
         """Affine form of element ``which`` in {'first','last','i'}."""
         if self.neg:
             return None
+        if not self.sorted and which in ("first", "last"):
+            # positional end of an *unsorted* vector: unrelated to its minimum / maximum
+            return Lin.sym("%s[@%s]" % (self.base, "0" if which == "first" else "-1")) + self.off
         return Lin.sym("%s[%s]" % (self.base, {"first": "0", "last": "-1"}.get(which, which))) + self.off
 
     def __eq__(self, o):
@@ -303,6 +306,7 @@ class Interp:
         self.no_inline = set(no_inline)
         self.uid = 0
         self.log = []
+        self.inplace = []  # (function, target name, value, node): augmented assignments on array-like values
         self.derived = {}  # derived symbol name -> (kind, Lin a, Lin b): structure of floor/mod/product/abs/max symbols
 
     # ---------------------------------------------------------------- running
@@ -383,6 +387,9 @@ class Interp:
         if isinstance(node, ast.AugAssign):
             cur = self.ev(node.target, st, frame)
             rhs = self.ev(node.value, st, frame)
+            if isinstance(cur, (Vec, Rng, Arr, FHV, Filt, SliceV, Gather)):
+                # numpy / pandas objects implement augmented assignment in place: every alias of the object changes
+                self.inplace.append((frame.func.name, dotted(node.target) or "?", cur, node))
             v = self.binop(node.op, cur, rhs, st)
             return self._expand(v, st, lambda s, val: self.assign(node.target, val, s, frame))
         if isinstance(node, ast.Return):
@@ -602,6 +609,21 @@ class Interp:
             return None if d is None else (not d)
         if isinstance(test, ast.Name) and isinstance(st.env.get(test.id), BExp):
             return self.decide(st.env[test.id].node, st, frame)
+        if isinstance(test, ast.Compare) and len(test.ops) > 1:
+            # chained comparison a op1 b op2 c  ==  (a op1 b) and (b op2 c)
+            parts = []
+            left = test.left
+            for op, c in zip(test.ops, test.comparators):
+                parts.append(ast.Compare(left=left, ops=[op], comparators=[c]))
+                left = c
+            for p_ in parts:
+                ast.copy_location(p_, test)
+            vals = [self.decide(p_, st, frame) for p_ in parts]
+            if any(v is False for v in vals):
+                return False
+            if all(v is True for v in vals):
+                return True
+            return None
         key = self.atom_key(test, st, frame)
         if key in st.atoms:
             return st.atoms[key]
@@ -693,6 +715,17 @@ class Interp:
                 if len(und) == 1 and all(d is neutral for v, d in vals if d is not None):
                     self.assume(und[0], polarity, st, frame)
             return
+        if isinstance(test, ast.Compare) and len(test.ops) > 1:
+            parts = []
+            left = test.left
+            for op, c in zip(test.ops, test.comparators):
+                p_ = ast.Compare(left=left, ops=[op], comparators=[c])
+                ast.copy_location(p_, test)
+                parts.append(p_)
+                left = c
+            fake = ast.BoolOp(op=ast.And(), values=parts)
+            ast.copy_location(fake, test)
+            return self.assume(fake, polarity, st, frame)
         if isinstance(test, ast.Compare) and len(test.ops) == 1:
             sop = CMP.get(type(test.ops[0]))
             if sop is None:
@@ -864,6 +897,9 @@ class Interp:
         return Opq("binop:" + type(op).__name__, [a, b])
 
     def ev_Compare(self, e, st, frame):
+        if len(e.ops) > 1:
+            d = self.decide(e, st, frame)
+            return K(d) if d is not None else Opq("cmp-chain")
         d = self.decide(e, st, frame)
         if d is not None:
             return K(d)
